@@ -228,18 +228,10 @@ func init() {
 					vars.Set(string(g.Xs[0].B), decodeVal(g.Xs[1]))
 				}
 				var buf bytes.Buffer
-				var xerr error
-				func() {
-					defer func() {
-						if e := recover(); e != nil {
-							xerr = crashErr{fmt.Sprint(e)}
-						}
-					}()
-					xerr = t.Execute(&buf, vars, decodeVal(cmd.Xs[4]))
-				}()
-				if _, isCrash := xerr.(crashErr); isCrash {
+				xerr := executeContained(t, &buf, vars, decodeVal(cmd.Xs[4]))
+				if ce, isCrash := xerr.(crashErr); isCrash {
 					res = "crash"
-					if oracle == "" {
+					if oracle == "" && !ce.callee {
 						oracle = "Execute panicked on " + files[pth] + ": " + xerr.Error()
 					}
 				} else if xerr != nil {
